@@ -765,10 +765,10 @@ class Scores:
             achieved and the EER value itself.
         """
         # We treat the case of perfect separation separately
-        if self.pos[0] >= self.neg[-1] and self.score_class == BinaryLabel.pos:
-            return (self.pos[0] + self.neg[-1]) / 2, 0.0
-        if self.pos[-1] <= self.neg[0] and self.score_class == BinaryLabel.neg:
-            return (self.pos[-1] + self.neg[0]) / 2, 0.0
+        if self.pos[0] > self.neg[-1] and self.score_class == BinaryLabel.pos:
+            return self._separating_threshold(self.neg[-1], self.pos[0]), 0.0
+        if self.pos[-1] < self.neg[0] and self.score_class == BinaryLabel.neg:
+            return self._separating_threshold(self.pos[-1], self.neg[0]), 0.0
 
         sign = -(self.threshold_at_fpr(0.0) - self.threshold_at_fnr(0.0))
 
@@ -809,6 +809,18 @@ class Scores:
         threshold = self.threshold_at_fpr(eer)
 
         return threshold, eer
+
+    def _separating_threshold(self, lower, upper):
+        """Midpoint of lower < upper that classifies both values correctly."""
+        threshold = (lower + upper) / 2
+        # For adjacent floats the midpoint rounds onto one of the two values. Samples
+        # equal to the threshold go to the class with the higher scores iff
+        # equal_class == score_class, so we keep the threshold on the correct side.
+        if self.equal_class == self.score_class:
+            threshold = np.maximum(threshold, np.nextafter(lower, np.inf))
+        else:
+            threshold = np.minimum(threshold, np.nextafter(upper, -np.inf))
+        return threshold
 
     def auc(
         self,
